@@ -42,6 +42,8 @@ def diff_cases(ctx, cases, timeout=900, model=True, label='main'):
             return ' '.join(t for t in toks if not t.startswith('#'))
         return o
     impl_out = [clean(o) for o in impl_out]
+    if getattr(ctx, 'canon', None):
+        impl_out = [ctx.canon(o) for o in impl_out]
     if model:
         model_out = vlib.run_robust(vlib.model_cmd(), lines, timeout=timeout, died='MODEL-DIED')
         for i, o in enumerate(model_out):
@@ -107,6 +109,7 @@ def run(pid, tier, seed, replay=None):
     sys.path.insert(0, os.path.join(ROOT, 'checks'))
     mod = importlib.import_module(pid.lower())
     ctx = Ctx(pid, tier, seed)
+    ctx.canon = getattr(mod, 'canon_impl', None)
     known = vlib.load_known()
     obligations = []
     props_ok = True
